@@ -105,6 +105,7 @@ inductive SEv where
   | start (r : ParsedReply)
   | frame (m : Msg) (r : ParsedReply)
   | raw (b : Bytes)
+  | part (n : Nat)          -- `n` zero bytes: a keep-alive arriving in fragments
   | bcHave (i : Nat) (r : ParsedReply)
   | bcState (e : Option Bool)
   | time (secs : Nat)
@@ -133,6 +134,7 @@ def parseEv (e : String) : Option SEv :=
     else if body = "e" then some .eof
     else if body.startsWith "f:" then (parseFrameToks (body.drop 2).toString).map (.frame · r)
     else if body.startsWith "x:" then (parseHex (body.drop 2).toString).map .raw
+    else if body.startsWith "p:" then (body.drop 2).toString.toNat?.map .part
     else if body.startsWith "h" then (body.drop 1).toString.toNat?.map (.bcHave · r)
     else if body.startsWith "o" then
       some (.bcState (if body = "oc" then some true else if body = "ou" then some false else none))
@@ -141,22 +143,28 @@ def parseEv (e : String) : Option SEv :=
 
 /-- Script events → model inputs. Timer advances become `ticks k` from the virtual clock. -/
 def toTIn (evs : List SEv) : Option (List TIn) :=
-  let rec go : List SEv → Nat → List TIn → Option (List TIn)
-    | [], _, acc => some acc.reverse
-    | e :: es, now, acc =>
+  -- `pend`: zero bytes received that do not make a whole keep-alive yet (the decoder keeps them: C06)
+  let rec go : List SEv → Nat → Nat → List TIn → Option (List TIn)
+    | [], _, _, acc => some acc.reverse
+    | e :: es, now, pend, acc =>
       match e with
-      | .start r => go es now (.start r.rep :: acc)
-      | .frame m r => go es now (.frame m r.rep r.disk :: acc)
-      | .raw b => match parseImpl b with
-        | .fatal => go es now (.recvErr :: acc)
+      | .start r => go es now pend (.start r.rep :: acc)
+      | .frame m r => if pend ≠ 0 then none else go es now pend (.frame m r.rep r.disk :: acc)
+      | .raw b => if pend ≠ 0 then none else match parseImpl b with
+        | .fatal => go es now pend (.recvErr :: acc)
         | _ => none
-      | .bcHave i r => go es now (.bcHave i r.rep :: acc)
-      | .bcState en => go es now (.bcState en :: acc)
-      | .eof => go es now (.eof :: acc)
+      | .part n =>
+        -- at most one keep-alive completes per event (the generator sees to it); otherwise nothing happens
+        if n = 0 ∨ pend + n ≥ 8 then none
+        else if pend + n ≥ 4 then go es now (pend + n - 4) (.frame .keepAlive .none none :: acc)
+        else go es now (pend + n) (.ticks 0 :: acc)
+      | .bcHave i r => go es now pend (.bcHave i r.rep :: acc)
+      | .bcState en => go es now pend (.bcState en :: acc)
+      | .eof => go es now pend (.eof :: acc)
       | .time secs =>
         let iv := Rdest.Gen.KEEP_ALIVE_INTERVAL_SEC
-        go es (now + secs) (.ticks ((now + secs) / iv - now / iv) :: acc)
-  go evs 0 []
+        go es (now + secs) pend (.ticks ((now + secs) / iv - now / iv) :: acc)
+  go evs 0 0 []
 
 def ourInfoHash : Bytes := List.replicate 20 7
 def ourId : Bytes := "-VF0001-000000000000".toUTF8.toList
